@@ -52,6 +52,12 @@ func setup4(args ...string) (handler.Handler4, error) {
 
 func Handler4(req, resp *dhcpv4.DHCPv4) (*dhcpv4.DHCPv4, bool) {
 	v6pref := req.IsOptionRequested(dhcpv4.OptionIPv6OnlyPreferred)
+	if !req.Options.Has(dhcpv4.OptionParameterRequestList) {
+		// IsOptionRequested reports true for every option when the client sent no
+		// parameter request list at all; RFC 8925 §3.1 requires the client to list
+		// the option explicitly
+		v6pref = false
+	}
 	log.WithFields(logrus.Fields{
 		"mac":      req.ClientHWAddr.String(),
 		"ipv6only": v6pref,
